@@ -63,7 +63,8 @@ NEAR_MISS = {
     b'Connection': [b'upgrade', b'keep-alive, Upgrade', b'keep-alive,upgrade', b'Upgrade,keep-alive', b'upgrade2', b'close',
                     b'keep-alive Upgrade', b'', b'UPGRADE', b'Upgrade;q=1'],
     b'Sec-WebSocket-Version': [b'13', b'13 ', b'12', b'8, 13', b'013', b''],
-    b'Sec-WebSocket-Key': [DEFAULT_KEY, b'', b'x', b'AAAAAAAAAAAAAAAAAAAAAA==', b'not base64 !!', b'a' * 40],
+    b'Sec-WebSocket-Key': [DEFAULT_KEY, b'', b'x', b'AAAAAAAAAAAAAAAAAAAAAA==', b'not base64 !!', b'a' * 40,
+                           b'dGhlIHNhbXBsZSBub25jZQ\xbd=', b'\x80\xff\xfe', b'k\xe9y', b'tab\there'],
 }
 
 def server_request_variants(rng, n):
@@ -138,7 +139,7 @@ def server_response_variants(rng, n, subprotos=()):
         out.append((list(base[:3]) + [(b'Sec-WebSocket-Protocol', sp)], b'101 Switching Protocols', b'HTTP/1.1'))
     # every single-character change of the accept value (28 positions x 4 letters)
     for pos in range(28):
-        for ch in (b'A', b'z', b'0', b'/'):
+        for ch in (b'A', b'z', b'0', b'/', b'^'):
             out.append(([(n_, accept_marker(pos, ch) if n_ == b'Sec-WebSocket-Accept' else v_) for n_, v_ in base],
                         b'101 Switching Protocols', b'HTTP/1.1'))
     for _ in range(n):
@@ -162,4 +163,6 @@ def endless_heads():
     many = line + b''.join(b'H%d: v\r\n' % i for i in range(130)) + b'\r\n'
     out.append(('125headers', [many]))
     out.append(('noterm', [line + b'Host: x\r\n' + b'A' * 3000]))
+    out.append(('drip1b', [bytes([b]) for b in big[:200]]))
+    out.append(('drip100', [big[i:i + 100] for i in range(0, 100 * 90, 100)]))
     return out
